@@ -90,8 +90,9 @@ Definition uses (os : list opt) : list M :=
 (* the middleware chain                                                *)
 
 (* What executing a RoundTripper once does, as far as the property can see:
-   the events it emits, in order.  (Results are passed through by every
-   wrapper considered here and are not part of C19.) *)
+   the events it emits, in order.  (What the wrappers return is not part of C19 and
+   not modelled: the tagging middlewares pass results through; LoggingMiddleware returns (nil, err) on
+   an error, dropping a response that accompanied it.) *)
 Inductive event :=
 | EIn (tag : nat) | EOut (tag : nat)      (* a tagging middleware before / after calling next *)
 | ELogIn | ELogOut                        (* LoggingMiddleware: start := time.Now() ... log.Printf after next returned *)
